@@ -575,7 +575,8 @@ impl AssemblyCode {
                                 }
                             }
                             if let Some(v) = &x_register {
-                                if v.eq(&inst.dasm_operand) {
+                                // The load also sets N and Z: it's redundant only if they describe X already
+                                if v.eq(&inst.dasm_operand) && flags == FlagsState::X {
                                     // Remove this instruction
                                     remove_second = !inst.protected;
                                 }
@@ -595,7 +596,8 @@ impl AssemblyCode {
                                 }
                             }
                             if let Some(v) = &y_register {
-                                if v.eq(&inst.dasm_operand) {
+                                // The load also sets N and Z: it's redundant only if they describe Y already
+                                if v.eq(&inst.dasm_operand) && flags == FlagsState::Y {
                                     // Remove this instruction
                                     remove_second = !inst.protected;
                                 }
